@@ -4,19 +4,26 @@ Chaotic iteration over a finite lattice reaches the same fixpoint in every fair 
 the transfer functions are monotone, join is the lattice operation, the start value is the
 right extremal value, and the worklist is complete.  Each is checked on the code:
 
-R-C09.1  worklist completeness: one abstract iteration of each `run` loop body is
-         interpreted (edge lists as symbolic tokens) for include_unreachable in {F,T}; the
-         set of edges *read* to recompute a block must be the inverse of the set of edges
-         *re-queued* when its value changes (predecessors<->successors, dummy<->dummy).
-R-C09.2  transfer shape: `apply_bb` as a membership truth table for one symbolic variable:
-         liveness  = used or (live_after and not assigned);  assignment = in or assigned.
+R-C09.7  the worklist loops, end to end: `ForwardAnalysis.run` / `BackwardAnalysis.run` are interpreted from their syntax
+         trees (helpers included) on nine small control-flow graphs (chains, diamonds, loops, never-taken edges into
+         unreachable blocks) for every order in which the blocks can be handed in, include_unreachable off and on, with a
+         may- (union) and a must- (intersection) reference analysis plugged into the framework's hooks; the returned map must
+         equal the solution computed from the graph alone.  Where this decides, R-C09.1 / .5 / .6 are implied and not run.
+R-C09.2  transfer: `apply_bb` of both analyses is interpreted on all used / assigned / incoming subsets of a three-variable
+         universe:  liveness = used ∪ (live_after − assigned);  assignment = (definitely ∪ assigned, maybe ∪ assigned);
+         inputs left untouched; sets iterated in both orders.  (Fallback if not interpretable: membership truth table of
+         the single return expression.)
 R-C09.3  join: definite = intersection of first components, maybe = union of second ones,
          empty join = the entry value; liveness join = union; `eq` is set equality.
 R-C09.4  extremal values: definite assignment starts from all variables (greatest
          fixpoint); liveness starts empty except for borrowed variables.
-R-C09.6  every popped block is recomputed: join and apply_bb are unconditional statements of the loop body, with no
-         continue/break/return before them (blocks without predecessors get the empty join = entry value).
-R-C09.5  change detection: the cached value is updated and dependants are re-queued iff
+R-C09.1  (fallback for R-C09.7) worklist completeness: one abstract iteration of each `run` loop body is
+         interpreted (edge lists as symbolic tokens) for include_unreachable in {F,T}; the
+         set of edges *read* to recompute a block must be the inverse of the set of edges
+         *re-queued* when its value changes (predecessors<->successors, dummy<->dummy).
+R-C09.6  (fallback for R-C09.7) every popped block is recomputed: join and apply_bb are unconditional statements of the
+         loop body, with no continue/break/return before them.
+R-C09.5  (fallback for R-C09.7) change detection: the cached value is updated and dependants are re-queued iff
          the value changed; all blocks are queued initially.
 """
 
@@ -32,9 +39,11 @@ from ..report import Ctx
 
 LEVEL = "other"
 EXPLANATION = (
-    "Obligations of the chaotic-iteration theorem checked on cfg/analysis.py: read-set / re-queue-set symmetry "
-    "extracted by abstractly interpreting one worklist iteration, truth tables of the transfer functions over one "
-    "symbolic variable, shape of join / eq / initial values. No CFG is sampled and no schedule is run."
+    "Obligations of the chaotic-iteration theorem checked on cfg/analysis.py.  The worklist loops are interpreted from "
+    "their syntax trees by the checker's own evaluator on nine small abstract graphs under every block order against "
+    "reference may/must analyses; transfer functions, joins and equality are interpreted over all subsets of a "
+    "three-variable universe; extremal values by shape.  No repository code is executed; the concrete analyses are "
+    "covered through the lattice obligations, not by running them on programs."
 )
 
 AN = "guppylang_internals.cfg.analysis"
@@ -111,8 +120,15 @@ def run(ctx: Ctx) -> None:
         ctx.check("run" not in c.methods, "R-C09.1", f"{c.qualname}#uses-framework-run", c.where, {"overrides_run": "run" in c.methods},
                   "a concrete analysis brings its own worklist loop (not covered by the framework obligations)")
 
+    # ------------------------------------------------------------ R-C09.7 the worklist loops, end to end
+    from . import c09_fixpoint, c09_transfer
+    e2e = c09_fixpoint.run(ctx)
+    # R-C09.6 / .1 / .5 are obligations on the *shape* of the loop (one abstract iteration); they are the fallback for a loop
+    # the interpreter cannot run end to end, and are implied by R-C09.7 where it decides.
+    shape_runs = [] if e2e else runs
+
     # ------------------------------------------------------------ R-C09.6 every popped block is recomputed
-    for c_, r_ in runs:
+    for c_, r_ in shape_runs:
         loops_ = [n for n in walk_no_nested(r_.node) if isinstance(n, ast.While)]
         key_ = f"{r_.qualname}#every-popped-block-is-recomputed"
         if len(loops_) != 1:
@@ -135,7 +151,7 @@ def run(ctx: Ctx) -> None:
                   "analysis is 'everything assigned'): the entry block's state is wrong and use-before-definition there goes unnoticed")
 
     # ------------------------------------------------------------ R-C09.1 / R-C09.5
-    for c, r in runs:
+    for c, r in shape_runs:
         ctx.saw("functions", r.qualname)
         for inc in (False, True):
             key = f"{r.qualname}#requeue-covers-readers[include_unreachable={inc}]"
@@ -195,7 +211,8 @@ def run(ctx: Ctx) -> None:
     aa = assn.methods.get("apply_bb")
     if la is None or aa is None:
         raise AnalysisError("apply_bb vanished")
-    for f, spec_kind in ((la, "liveness"), (aa, "assignment")):
+    transfer_decided = c09_transfer.run(ctx)
+    for f, spec_kind in () if transfer_decided else ((la, "liveness"), (aa, "assignment")):
         ctx.saw("functions", f.qualname)
         params = [a.arg for a in f.node.args.args]
         rets = [r.value for r in walk_no_nested(f.node) if isinstance(r, ast.Return)]
